@@ -23,7 +23,7 @@ res = {}; lock = threading.Lock()
 env = dict(os.environ, GOCACHE=os.path.join(R, ".work", "gocache"))
 
 def worker(k):
-    cp = "/tmp/vcopy%d" % k
+    cp = "/tmp/vcopy%s%d" % (os.environ.get("PAREVAL_TAG", ""), k)
     subprocess.run(["rsync", "-a", "--delete", "--exclude", ".work", "--exclude", ".git", "--exclude", "replays", R + "/", cp + "/"], check=True)
     os.makedirs(cp + "/.work", exist_ok=True)
     while True:
